@@ -6,7 +6,7 @@ from .repo import AnalysisError, dotted
 from .interp_exec import short_name
 from .interp import (Outcome, NORMAL, Frame, CFG_ATTRS, CFG_CLASSES,
                      MAX_DEPTH)
-from .terms import NONE, TRUE, FALSE, const, is_const, strip_wrappers, plain
+from .terms import NONE, TRUE, FALSE, const, is_const, strip_wrappers, plain, walk
 
 PURE_METHODS = {"lower", "upper", "strip", "decode", "encode", "split",
                 "format", "join", "startswith", "endswith", "items", "keys",
@@ -119,6 +119,23 @@ class CallMixin(object):
             self._container_attrs = res
         return self._container_attrs
 
+    _mutable_attrs = None
+
+    def mutable_attrs(self):
+        """(class, attr) pairs assigned outside __init__ (counters, flags)"""
+        if self._mutable_attrs is None:
+            res = set()
+            for cname, (mod, cd) in self.repo.classes.items():
+                for meth in cd["methods"].values():
+                    if meth.name == "__init__":
+                        continue
+                    for n in ast.walk(meth.node):
+                        if isinstance(n, ast.Attribute) and isinstance(n.ctx, ast.Store) \
+                                and isinstance(n.value, ast.Name) and n.value.id == "self":
+                            res.add((cname, n.attr))
+            self._mutable_attrs = res
+        return self._mutable_attrs
+
     # -- subscript load --------------------------------------------------------
     def ex_Subscript(self, node, state, frame):
         out = []
@@ -209,8 +226,8 @@ class CallMixin(object):
         if len(outs) != 1:
             raise AnalysisError("__init__ of %s branches" % vcls)
         state.events = saved_events
-        # containers of a pre-existing object have unknown content
-        for (cls, attr) in self.container_attrs():
+        # containers and other mutable state of a pre-existing object are unknown
+        for (cls, attr) in self.container_attrs() | self.mutable_attrs():
             if cls == vcls:
                 state.heap.pop((tag, attr), None)
         del state.envs[synth.fid]
@@ -341,9 +358,12 @@ class CallMixin(object):
             raise AnalysisError("inlining depth bound exceeded at %s" % fi.qualname)
         if fi.qualname in state.stack:
             raise AnalysisError("recursion through %s" % fi.qualname)
-        for n in ast.walk(fi.node):
-            if isinstance(n, (ast.Yield, ast.YieldFrom, ast.Await)):
-                raise AnalysisError("generator/coroutine %s not modelled" % fi.qualname)
+        gk = id(fi.node)
+        if gk not in self._gen_cache:
+            self._gen_cache[gk] = any(isinstance(n, (ast.Yield, ast.YieldFrom, ast.Await))
+                                      for n in ast.walk(fi.node))
+        if self._gen_cache[gk]:
+            raise AnalysisError("generator/coroutine %s not modelled" % fi.qualname)
         nf = Frame(fi, self_term, frame.depth + 1, cells=cells)
         env = {}
         params = list(fi.params)
@@ -375,6 +395,12 @@ class CallMixin(object):
                 sorted(kwargs), fi.qualname))
         if len(args) > len(params) and not fi.vararg:
             raise AnalysisError("too many arguments to %s" % fi.qualname)
+        mk = self._memo_key(fi, self_term, args, kwargs, state)
+        if mk in self.pure_memo:
+            alts, alt_events, term = self.pure_memo[mk]
+            self.ev(state, "pure", frame, node, callee=fi.qualname, args=tuple(args),
+                    alts=alts, alt_events=alt_events, value=term, memo=True)
+            return [(state, term)]
         pre = state.fork()
         n0 = len(state.events)
         pc0 = state.pc
@@ -387,6 +413,8 @@ class CallMixin(object):
         out = []
         for (s, o) in self.exec_block(fi.node.body, state, nf):
             s.stack = s.stack[:-1]
+            if not nf.has_closure:
+                s.envs.pop(nf.fid, None)
             if o.kind == "return":
                 self.ev(s, "ret", frame, node, callee=fi.qualname, value=o.value)
                 out.append((s, o.value))
@@ -400,13 +428,30 @@ class CallMixin(object):
         if len(out) > 1:
             merged = self._merge_pure(fi, pre, out, n0, pc0, frame, node, args, kwargs)
             if merged is not None:
+                e = merged[0][0].events[-1]
+                self.pure_memo[mk] = (e["alts"], e["alt_events"], e["value"])
                 return merged
         return out
+
+    def _memo_key(self, fi, self_term, args, kwargs, state):
+        sites = set()
+        for a in list(args) + list(kwargs.values()):
+            for x in walk(a):
+                if x[0] in ("rows", "row"):
+                    sites.add(x[1])
+        facts = []
+        for k, v in state.facts.items():
+            if k[0] == "cfg":
+                facts.append((k, v))
+            elif sites and any(x[0] in ("rows", "row") and x[1] in sites for x in walk(k)):
+                facts.append((k, v))
+        return (fi.qualname, self_term[1] if self_term else None, tuple(args),
+                tuple(sorted(kwargs.items())), frozenset(facts))
 
     def new_merge(self, name, site, alts):
         """value merged over the branches of a pure callee; the alternatives
         ((pc suffix, value), ...) live in self.merges[term]"""
-        key = (name, site, alts)
+        key = (name, site, len(alts), hash(alts))
         if key in self._merge_ids:
             return self._merge_ids[key]
         term = ("merge", name, site, len(self._merge_ids))
